@@ -37,12 +37,15 @@ def _args_dyn(inputs, o, work=None):
     ssz = g("in_ssz") & 0xFFFFFFFFFFFFFFFF
     if "VERIF_SSZ" in d:
         ssz = int(d["VERIF_SSZ"])
-    return [ENTRY_OP.get(o["entry"], "get"), str(kind), str(g("in_len")), str(g("in_cap")), str(esz), str(g("in_index")),
+    op = ENTRY_OP.get(o["entry"], "get")
+    if "list_h" in (o.get("harness") or ""):
+        op = "list_" + o["entry"][2:]
+    return [op, str(kind), str(g("in_len")), str(g("in_cap")), str(esz), str(g("in_index")),
             str(g("in_value") & 0xFFFFFFFFFFFFFFFF), str(g("in_newcap")), str(ssz), str(g("in_success_null") & 1),
             "1" if "VERIF_C08" in d else "0"]
 
 
 REPLAYERS = {
-    "dyn": {"args": _args_dyn, "src": ["src/runtime/dyn_array.c", "src/runtime/gc.c", "src/runtime/gc_struct.c"],
+    "dyn": {"args": _args_dyn, "src": ["src/runtime/dyn_array.c", "src/runtime/gc.c", "src/runtime/gc_struct.c", "src/runtime/list_int.c"],
             "timeout": 60},
 }
